@@ -159,6 +159,11 @@ Definition ends_with_next (next : option qitem) (l : list ritem) : bool :=
 
 Definition requeue (rest : list tent) : list qent := map (fun e => (None, fst e, snd e)) rest.
 
+(* insert form: the queued next_inner (head of the re-queued rest) is brought out to the
+   inserting frame's depth when it is nested more deeply, and keeps its depth otherwise *)
+Definition redepth (d : nat) (q : list qent) : list qent :=
+  match q with (o, i, d') :: r => (o, i, Nat.min d d') :: r | [] => [] end.
+
 (* children of one context: extract_child on each kid, sharing the tick counter *)
 Fixpoint run_kids (runner : item -> nat -> outcome * nat) (kids : list item) (acc : list stack) (t : nat)
   : list stack * option outcome * nat :=
@@ -245,14 +250,14 @@ Fixpoint run (fuel : nat) (first : bool) (c : cfg) (tu : list qent) (te : list t
               | EOne RNext =>
                   match next with
                   | None | Some QNone => run fuel' first c [] rest errs out_rev t
-                  | _ => run fuel' first c (requeue rest) [] errs out_rev t  (* insert nothing *)
+                  | _ => run fuel' first c (redepth d (requeue rest)) [] errs out_rev t  (* insert nothing *)
                   end
               | _ =>
                 let l := match r with ESeq l => l | EOne x => [x] | _ => [] end in
                 let mk q := (better_origin c q None, q, d) in
                 let tu' :=
                   if ends_with_next next l
-                  then map mk (map (conc next) (removelast l)) ++ requeue rest
+                  then map mk (map (conc next) (removelast l)) ++ redepth d (requeue rest)
                   else map mk (map (conc next) l) ++ dropge d (requeue rest) in
                 run fuel' first c tu' [] errs out_rev t
               end
